@@ -33,6 +33,9 @@ from cell_type_mapper.taxonomy.taxonomy_tree import (
     TaxonomyTree)
 
 
+import cell_type_mapper.utils.verif_hooks as verif_hooks
+
+
 def find_markers_for_all_taxonomy_pairs_from_p_mask(
         precomputed_stats_path,
         p_value_mask_path,
@@ -452,6 +455,8 @@ def _find_markers_from_p_mask_worker(
 
     up_mask = np.zeros(n_genes, dtype=bool)
 
+    verif_hooks.gate('pmarkers.before', col0=int(col0))
+
     # load the relevant p-value mask
     with h5py.File(p_value_mask_path, mode='r', swmr=True) as src:
         p_indptr = src['indptr'][()]
@@ -497,11 +502,15 @@ def _find_markers_from_p_mask_worker(
         down_reg_lookup[idx] = np.where(
             np.logical_and(validity_mask, np.logical_not(up_mask)))[0]
 
+    verif_hooks.gate('pmarkers.mid', col0=int(col0))
+
     _write_to_tmp_file(
         up_reg_lookup=up_reg_lookup,
         down_reg_lookup=down_reg_lookup,
         output_path=tmp_path,
         idx_dtype=idx_dtype)
+
+    verif_hooks.gate('pmarkers.after', col0=int(col0))
 
 
 def _get_validity_mask(
